@@ -333,6 +333,54 @@ def part_chains(chk, drv, st, dialects, enum):
     return True
 
 
+HISTORY_STATEMENTS = [
+    "insert into m select a, b from s",
+    "insert into f select a from m",
+    "create table f2 as select b as x from m",
+    "select a from m",                                   # a plain SELECT of what other statements write / read
+    "select a, b from s",
+    "insert into t (a, b) values (1, 2)",               # write-only statements that record columns
+    "update t set a = b",
+    "create table t (a int, b int)",
+    "insert into m (a, b) values (1, 2)",
+    "drop table s", "drop table m", "drop table f", "drop table t",
+]
+
+
+def part_histories(chk, st, dialects, enum):
+    """every script of <= 3 (thorough: <= 4) statements over HISTORY_STATEMENTS — chained writes, plain SELECTs of the
+    intermediate, write-only statements that record columns, DROP of a table in every role — under the monitor (the projection
+    clauses relate column paths to the roles the SCRIPT gives the tables, so they need histories, not single statements)"""
+    import itertools
+    n = 4 if chk.tier == "thorough" else 3
+    scripts = [list(c) for k in range(2, n + 1) for c in itertools.product(HISTORY_STATEMENTS, repeat=k)
+               if any(x.startswith(("insert into m select", "insert into f", "create table f2", "update", "insert into t", "create table t"))
+                      for x in c)]
+    if chk.tier == "thorough":
+        # length 4: a seeded sample (13^4 = 28 561 scripts x dialects is beyond the budget), every shorter script
+        short = [c for c in scripts if len(c) < 4]
+        long_ = [c for c in scripts if len(c) == 4]
+        chk.rng.shuffle(long_)
+        scripts = short + long_[:6000]
+    jobs = [(si, d) for si in range(len(scripts)) for d in dialects]
+    res = monitor.run_cases([{"sql": scripts[si], "dialect": d, "metadata": None, "export": True} for si, d in jobs], chunksize=16)
+    for (si, d), r in zip(jobs, res):
+        if "rejected" in r:
+            st.reject[d] += 1
+            continue
+        if "error" in r:
+            st.c["history:" + r["error"]] += 1
+            continue
+        st.accept[d] += 1
+        chk.count("history:" + canon_json([scripts[si], d]), bool(r["paths"]))
+        rec = {"sql": scripts[si], "dialect": d, "metadata": None, "name": "history"}
+        if not handle_fails(chk, st, r["fails"], rec):
+            return False
+        enum.add(rec, r["export"])
+    st.c["histories"] = len(scripts)
+    return True
+
+
 def replay_known(chk, st):
     """the stored witness of every recorded finding is replayed first (DESIGN §2.5 step 7)"""
     for e in chk.findings:
@@ -367,6 +415,7 @@ def run(chk):
     ok = part_corpus(chk, st, enum)
     ok = ok and part_statements(chk, drv, st, stmt_dialects, enum)
     ok = ok and part_chains(chk, drv, st, chain_dialects, enum)
+    ok = ok and part_histories(chk, st, ["ansi", "non-validating"], enum)
     enum.flush()
     sqlimpl.close_pool()
     chk.coverage.update({"exhaustive": False, "distribution": st.as_dict(), "statement_dialects": stmt_dialects,
